@@ -194,6 +194,8 @@ def evaluate(cases, env):
         c2 = dict(c)
         if "now" in r:
             c2["now"] = r["now"]
+        if isinstance(r.get("model_input"), dict):
+            c2.update(r["model_input"])   # facts observed on the implementation that the model is asked to judge
         mlines.append(json.dumps(c2, ensure_ascii=False))
     model = run_model(mlines)
     recs = []
